@@ -287,6 +287,50 @@ def oracle_tuned(c, r):
     return None
 
 
+# ------------------------------------------------------------- combined = pointwise minimum, swept over sizes
+
+
+def combined_cases(tier):
+    ks = (1, 2, 3, 4) if tier == "quick" else (1, 2, 3, 4, 5, 6)
+    return [{"p": p, "k": k, "scale": [1.0, 2.3][(p + k) % 2]} for p in range(2, 65) for k in ks]
+
+
+def impl_combined(c):
+    """for one (p, parameters per variable): every n in 2..60 and a geometric grid up to 3000 (to 100000 in the thorough tier)"""
+    from skchange.anomaly_detectors import mvcapa as mv
+
+    p, k, s = c["p"], c["k"], c["scale"]
+    ns, v = list(range(2, 61)), 60.0
+    while v < (3000 if len(combined_cases("quick")) and c["k"] <= 4 else 100000):
+        v *= 1.07
+        ns.append(int(v))
+    try:
+        for n in ns:
+            fams = [mv.dense_mvcapa_penalty(n, p, k, s), mv.sparse_mvcapa_penalty(n, p, k, s), mv.intermediate_mvcapa_penalty(n, p, k, s)]
+            cum = [np.cumsum(np.asarray(b, dtype=float)) + float(a) for a, b in fams]
+            want = np.minimum(np.minimum(cum[0], cum[1]), cum[2])
+            a, b = mv.combined_mvcapa_penalty(n, p, k, s)
+            got = np.cumsum(np.asarray(b, dtype=float)) + float(a)
+            bad = np.where(~(np.abs(got - want) <= 1e-9 * (1 + np.abs(want))))[0]
+            if len(bad):
+                j = int(bad[0])
+                return {"outcome": "ok", "bad": {"n": n, "j": j + 1, "got": float(got[j]), "want": float(want[j]),
+                                               "fams": [float(x[j]) for x in cum]}}
+        return {"outcome": "ok", "bad": None, "sizes": len(ns)}
+    except Exception as ex:
+        return {"outcome": "other:" + type(ex).__name__, "msg": str(ex)[:200]}
+
+
+def oracle_combined(c, r):
+    if r["outcome"] != "ok":
+        return f"penalty family raised {r['outcome']} {r.get('msg', '')}"
+    b = r["bad"]
+    if b:
+        return (f"combined penalty for n={b['n']}, p={c['p']}, {c['k']} parameters per variable, scale {c['scale']}: the total for {b['j']} "
+                f"components is {b['got']!r}, the pointwise minimum of dense / sparse / intermediate {b['fams']} is {b['want']!r}")
+    return None
+
+
 # ------------------------------------------------------------------------------ PELT monotone
 
 
@@ -439,6 +483,10 @@ def run(chk: core.Check):
     chk.run_stream("tuned", tuned_cases(rng, N), impl_tuned, oracle=oracle_tuned, site="tune_threshold",
                    describe=lambda c: c)
     rng = core.rng_for(chk.seed, "C15/mono")
+    chk.rules.append("combined-min: for every p in 2..64 and 1..4 parameters per variable (1..6 thorough), every n in 2..60 and a geometric "
+                     "grid of sizes up to 3000: the combined family is the pointwise minimum of the dense, sparse and intermediate totals")
+    chk.run_stream("combined-min", combined_cases(tier), impl_combined, oracle=oracle_combined, site="combined_mvcapa_penalty",
+                   per_case_timeout=120, nontrivial=lambda c, r: r.get("outcome") == "ok" and c["p"] >= 2)
     mcases = mono_cases(rng, N)
     mres = chk.run_stream("mono", mcases, impl_mono, oracle=oracle_mono, site="PELT/penalty-monotone",
                           nontrivial=lambda c, r: r.get("outcome") == "ok" and r["k1"] > r["k2"], per_case_timeout=60)
@@ -463,7 +511,7 @@ def replay(path):
         print(json.dumps(v, indent=1)[:4000])
         return 0
     f = {"formulas": (impl_formulas, oracle_formulas), "proportional": (impl_prop, oracle_prop), "fitted": (impl_fitted, oracle_fitted),
-         "tuned": (impl_tuned, oracle_tuned), "mono": (impl_mono, oracle_mono)}.get(v["stream"])
+         "tuned": (impl_tuned, oracle_tuned), "mono": (impl_mono, oracle_mono), "combined-min": (impl_combined, oracle_combined)}.get(v["stream"])
     if f:
         r = f[0](case)
         print("implementation:", {k: r[k] for k in r if k != "scores"}, "\noracle:", f[1](case, r))
